@@ -356,6 +356,13 @@ Definition step (c : cfg) (v : variant) (f : fsm) (e : Ev) : fsm :=
   | EInput code id k data => input c v code id k data f
   end.
 
+(* func (f *FSM) Restore() and func (f *FSM) Kill(): administrative entry points outside the RFC's event
+   set (session restore after a crash, session teardown); silent by design.  They are not events of
+   [Ev]; the correspondence check drives them as ops R and K. *)
+Definition restore (f : fsm) : fsm :=
+  clear_out f |> stopTimer |> set_st Opened |> set_restart 0 |> set_failc 0.
+Definition kill (f : fsm) : fsm := clear_out f |> stopTimer |> set_st Closed.
+
 Definition outs (f : fsm) : list Act := rev (out f).
 
 (* ------------------------------------------------------------------ Part 2: RFC 1661 4.1 *)
